@@ -27,7 +27,7 @@ FRAME_IFACES = ['iter_array', 'iter_array_items', 'iter_series', 'iter_series_it
                 'iter_window_array', 'iter_window_array_items', 'iter_group_labels', 'iter_group_labels_items']
 BATCH_STEPS = ['apply', 'apply_items', 'apply_series', 'apply_element', 'iloc', 'loc_cols', 'mul', 'sum', 'getitem', 'head',
                'apply_except', 'apply_items_except', 'rename', 'sort_index', 'transpose', 'cumsum', 'drop', 'min', 'neg', 'loc_rows', 'tail',
-               'sum_noskip', 'mean', 'max', 'apply_none', 'apply_none_except', 'apply_grow']
+               'sum_noskip', 'mean', 'max', 'apply_none', 'apply_none_except', 'apply_grow', 'rsub', 'rmul', 'rfloordiv']
 
 
 def gen_cells(ch, nr, j, kind):
@@ -604,6 +604,12 @@ class PoolWorld(WorldBase):
                 b = b.drop.iloc[0]
             elif step == 'neg':
                 b = -b
+            elif step == 'rsub':
+                b = 1000 - b  # reflected forms: the operator object itself crosses the pool boundary
+            elif step == 'rmul':
+                b = 3 * b
+            elif step == 'rfloordiv':
+                b = 100000 // (b + 1)
             elif step == 'loc_rows':
                 b = b.iloc[[0]]
             elif step == 'tail':
@@ -742,6 +748,12 @@ class PoolWorld(WorldBase):
                         c = c.drop.iloc[0]
                     elif step == 'neg':
                         c = -c
+                    elif step == 'rsub':
+                        c = 1000 - c
+                    elif step == 'rmul':
+                        c = 3 * c
+                    elif step == 'rfloordiv':
+                        c = 100000 // (c + 1)
                     elif step == 'loc_rows':
                         c = c.iloc[[0]]
                     elif step == 'tail':
